@@ -42,7 +42,7 @@ lC1v == Link("c1v")
 lC1z == Link("c1z")
 Lits == {mAB, Int_(0), Int_(1), Int_(2), Float2(2), sA, sAB, Bool(TRUE), Null, FHuge, FNegHuge, IHuge, INegHuge, lC1, lmAB}
       \cup (IF Size = "thorough" THEN {NaN, Float2(3), List(<<Int_(1), Int_(2)>>), PInf} ELSE {})
-Pats == {<<97, 42>>, <<42, 98>>, <<92, 42>>, <<42, 97, 97>>}            \* a*   *b   \*   *aa (overlapping false start on "aaa")
+Pats == {<<97, 42>>, <<42, 98>>, <<92, 42>>, <<42, 97, 97>>, <<92, 42, 42>>}      \* ... and \** : a literal star, then any sequence            \* a*   *b   \*   *aa (overlapping false start on "aaa")
 
 Cmp(op, sel, v) == [op |-> op, sel |-> sel, val |-> v]
 Like(sel, p)    == [op |-> "like", sel |-> sel, pat |-> p]
@@ -78,7 +78,7 @@ Stmts == Leaves \cup Conns \cup Quants \cup Nested
 Absent == <<"absent">>
 Ent(key, v) == IF K(v) = "absent" THEN <<>> ELSE <<Entry(key, v)>>
 Datum(a, b, l, mm) == Map(Ent(<<97>>, a) \o Ent(<<98>>, b) \o Ent(<<108>>, l) \o Ent(<<109>>, mm))
-DA == {Absent, Int_(1), sA, FNegHuge, Str(<<97, 97, 97>>), Bytes(<<97, 98>>), Null, Float2(3), IHuge, mBA, mAB, lC1, lC1v, lC1z, lmAB, lmBA} \cup (IF Size = "thorough" THEN {Float2(2), NaN, FHuge, INegHuge} ELSE {})
+DA == {Absent, Int_(1), sA, FNegHuge, Str(<<97, 97, 97>>), Bytes(<<97, 98>>), Null, Float2(3), IHuge, mBA, mAB, lC1, lC1v, lC1z, lmAB, lmBA, Str(<<42, 97>>)} \cup (IF Size = "thorough" THEN {Float2(2), NaN, FHuge, INegHuge} ELSE {})
 DB == {Absent, Int_(2), Int_(3)}
 DL == {Absent, List(<<>>), List(<<Int_(1), Int_(2)>>), List(<<Int_(2), sA>>), Int_(5),
        List(<<Map(<<Entry(<<120>>, Map(<<>>))>>), Map(<<>>)>>)}       \* [{x: {}}, {}]: .x.y? is missing-optional on the first, missing-required on the second
